@@ -390,7 +390,7 @@ _MORE = {
     "C01": "Later additions: a third of the histories run with checkpoint.autoReset=latest (the crash oracle skips the documented start of a "
            "group without any checkpoint); transient / final stream ends and rebalances inside the histories (an event is identified by its "
            "seqno: one acknowledgement of either delivery settles it); unit RollbackRestart on the wire: the restart is answered with a "
-           "ROLLBACK and the re-stream may omit the checkpointed seqno - everything above the checkpoint must be delivered again. Round 5: unit TornFile (file backend, child process per history: the last step is a crash inside the file write of a save, leaving an empty file or a prefix; the restart must refuse to start or resume at/before the first unsettled event). Round 7: a quarter of the histories with skipUntil and documents carrying an old CAS among newer ones (dropped, never settled). Round 8: a quarter of the histories with a listener that panics on one or two documents before acknowledging them.",
+           "ROLLBACK and the re-stream may omit the checkpointed seqno - everything above the checkpoint must be delivered again. Round 5: unit TornFile (file backend, child process per history: the last step is a crash inside the file write of a save, leaving an empty file or a prefix; the restart must refuse to start or resume at/before the first unsettled event). Round 7: a quarter of the histories with skipUntil and documents carrying an old CAS among newer ones (dropped, never settled). Round 8: a quarter of the histories with a listener that panics on one or two documents before acknowledging them. Round 10: events sent on the re-requested streams from inside AfterStreamStart of a rebalance (as in C03/C04); a document sent there that the consumer was never shown is unsettled: a durable checkpoint at or beyond it is a violation.",
     "C02": "Later additions: histories on the real file backend (every assigned vBucket's last value is in the file; restart resumes from it); "
            "read-only metadata mode through the real Dcp.Start() with injected and file backends, incl. a second session in the same process "
            "after another member advanced the stored checkpoints. Round 5: the collection-aware sequence-number query answers a generated share of the vBucket's high seqno (the plain query, which Load must use, answers the high seqno). Round 9: file backend with stored documents while the process is out of file descriptors at Open() (RLIMIT_NOFILE lowered around the call): fail-stop on the read error or the stored position, never a reset one.",
@@ -398,16 +398,16 @@ _MORE = {
            "of old-branch events meet a position settled on the new branch. Round 5: unit FileHistory (file backend: Load returns every vBucket in the file, rebalances only shrink the range, late acknowledgements of lost vBuckets must leave the stale entry where it is). Round 7: skipUntil + old-CAS documents; events delivered AND settled from inside AfterStreamStart of a rebalance.",
     "C05": "Later additions: savequeue (a Save issued while one is in flight); the same histories on the file backend with the file read back after "
            "every save; unit CouchbaseBackend: real cbMetadata on the simulated node, which rejects a generated subset of ONE save's per-vBucket "
-           "writes (the others complete before / after) - after the next undisturbed save every acknowledged position must be on the node. Round 5: failovers and transient stream ends in the save histories (late acknowledgements of the previous history branch). Round 7: rebalances with an explicit save from inside BeforeStreamStop. Round 9: kinds of save failure (rejected / context.DeadlineExceeded bare and wrapped / gocbcore.ErrTimeout).",
+           "writes (the others complete before / after) - after the next undisturbed save every acknowledged position must be on the node. Round 5: failovers and transient stream ends in the save histories (late acknowledgements of the previous history branch). Round 7: rebalances with an explicit save from inside BeforeStreamStop. Round 9: kinds of save failure (rejected / context.DeadlineExceeded bare and wrapped / gocbcore.ErrTimeout). Round 10: acknowledge + Commit from inside AfterStreamStart of a rebalance (the session is still opening).",
     "C06": "Later additions: transient stream ends (the re-request tuple is judged like every other offset handed out); unit RollbackBranch on the "
            "wire: after a server-requested rollback every delivered offset carries the vbUUID of the branch named by the second response. Round 6: unit AheadCheckpoint (child process on C15's checkpoint-above scenarios: whatever is requested is the stored tuple or nothing). Round 7: a quarter of the histories start with auto-reset latest on vBuckets that hold events and failed over 0-3 times before. Round 8: stale events of an older snapshot (below the start of the one announced last). Round 9: stored documents carrying another bucketUuid than the streamed bucket's (a fifth of the histories of every history unit).",
-    "C08": 'Later additions: none to the generator before round 5; the executor is shared with C01 RollbackRestart and C06 RollbackBranch. Round 5: Mid (the session starts normally, its stream ends with a transient cause and the re-request inside the running session is answered with the rollback) and Mitig (rollback mitigation on: real OBSERVE_SEQNO polling of the simulated node, everything persisted and reported once, quiet afterwards). Round 7: Immediate (the events follow the success response of the re-request directly, from the node\'s stream-open callback). Round 8: the checkpoint the rollback session leaves behind (saved at its end) is not below F. Round 9: a failover of the vBucket between the sessions start and the rollback answer (the rollback point judged against the log the node has then).',
+    "C08": 'Later additions: none to the generator before round 5; the executor is shared with C01 RollbackRestart and C06 RollbackBranch. Round 5: Mid (the session starts normally, its stream ends with a transient cause and the re-request inside the running session is answered with the rollback) and Mitig (rollback mitigation on: real OBSERVE_SEQNO polling of the simulated node, everything persisted and reported once, quiet afterwards). Round 7: Immediate (the events follow the success response of the re-request directly, from the node\'s stream-open callback). Round 8: the checkpoint the rollback session leaves behind (saved at its end) is not below F. Round 9: a failover of the vBucket between the sessions start and the rollback answer (the rollback point judged against the log the node has then). Round 10: with a rollback answering a request inside the session, 1-4 documents above F shown and not acknowledged before the stream ended (the new branch re-uses their seqnos).',
     "C10": "Later additions: leadership is taken through the real handler (stream.NewLeaderElection(...).OnBecomeLeader) with a generated number of "
-           "followers registered before the callback runs. Round 5: unit RegisterRPC (real RPC server and clients on localhost: registrations arrive in a generated order, followers register again; the leader's list - from which the monitor numbers the followers - stays in join order). Round 6: unit Handover (assignments and leader hand-overs on a follower-side service discovery: announcements = assignments with repeats removed); Couchbase unit: swap (an instance document expires while another instance registers within one monitor round). Round 7: relay unit: 0-3 numberings announced on a fresh dynamic membership before the first GetInfo. Round 8: the leader unit puts the partition rule on top of the numbering (real discovery object per member, 64 / 128 / 1024 vBuckets).",
+           "followers registered before the callback runs. Round 5: unit RegisterRPC (real RPC server and clients on localhost: registrations arrive in a generated order, followers register again; the leader's list - from which the monitor numbers the followers - stays in join order). Round 6: unit Handover (assignments and leader hand-overs on a follower-side service discovery: announcements = assignments with repeats removed); Couchbase unit: swap (an instance document expires while another instance registers within one monitor round). Round 7: relay unit: 0-3 numberings announced on a fresh dynamic membership before the first GetInfo. Round 8: the leader unit puts the partition rule on top of the numbering (real discovery object per member, 64 / 128 / 1024 vBuckets). Round 10: couchbase unit op Stall (last op): the node refuses one member's heart-beat writes while its process lives; the others renumber, the dropped member fail-stops (accepted outcome) - it does not go on holding its number.",
     "C11": "Later additions: mode busdelay (real Dcp, bus publications during close / delay / reopen with the configured delay); gate variant of "
-           "direct mode (rollback mitigation polling a simulated cluster, an event parked in the gate when the first burst begins). Round 5: unit ReopenHistory (history engine, oracle C11: after every rebalance the live stream set is the whole range of the latest membership; a transient end of a freshly requested stream from inside AfterStreamStart). Round 6: units FollowMembership (executor of C09's StreamFollowsMembership with C11's clause) and CouchbaseSwap. Round 7: reopen histories in which the server ends the last stream for good (finite end / filter empty) while the rebalance closes the others - the client goes on. Round 8: application handlers of the lifecycle callbacks that take 5-30 ms (generated callback, weighted towards AfterRebalanceStart under dynamic membership); every callback records when it returned, and within a cycle each one must be emitted after the one before it has returned. Round 9: unit LeaderHandover (real follower-side serviceDiscovery + event bus + stream; assignments and leader hand-overs; a repetition of the numbering in effect - also by a new leader - causes no close/reopen).",
+           "direct mode (rollback mitigation polling a simulated cluster, an event parked in the gate when the first burst begins). Round 5: unit ReopenHistory (history engine, oracle C11: after every rebalance the live stream set is the whole range of the latest membership; a transient end of a freshly requested stream from inside AfterStreamStart). Round 6: units FollowMembership (executor of C09's StreamFollowsMembership with C11's clause) and CouchbaseSwap. Round 7: reopen histories in which the server ends the last stream for good (finite end / filter empty) while the rebalance closes the others - the client goes on. Round 8: application handlers of the lifecycle callbacks that take 5-30 ms (generated callback, weighted towards AfterRebalanceStart under dynamic membership); every callback records when it returned, and within a cycle each one must be emitted after the one before it has returned. Round 9: unit LeaderHandover (real follower-side serviceDiscovery + event bus + stream; assignments and leader hand-overs; a repetition of the numbering in effect - also by a new leader - causes no close/reopen). Round 10: Stream.Save() (Dcp.Commit) from the AfterRebalanceStart / BeforeRebalanceEnd / BeforeStreamStart callbacks of the closed window of a rebalance must return without panicking.",
     "C12": "Later additions: rebalances and STREAM_END from inside CloseStream in the histories; a transient end injected from the AfterStreamStart "
-           "callback of a rebalance's reopen; finite mode with immediate acknowledgement and transient ends at the sampled end. Round 5: a third of the histories end with a shutdown by cancel during which the server ends another vBucket's stream with a transient cause (no new request, active count as expected). Round 6: active count and client liveness inside the 1 s retry pause of a refused re-request, with every other vBucket ending for good meanwhile. Round 7: a fifth of the histories on the file backend with a file listing every vBucket. Round 8: unit Finite with checkpoint.autoReset default / earliest / latest and a group that has never stored a checkpoint (with latest every vBucket starts at its current end = the sampled end). Round 9: the re-request after a transient end carries the end bound the session opened the vBucket with (open end / sampled high seqno).",
+           "callback of a rebalance's reopen; finite mode with immediate acknowledgement and transient ends at the sampled end. Round 5: a third of the histories end with a shutdown by cancel during which the server ends another vBucket's stream with a transient cause (no new request, active count as expected). Round 6: active count and client liveness inside the 1 s retry pause of a refused re-request, with every other vBucket ending for good meanwhile. Round 7: a fifth of the histories on the file backend with a file listing every vBucket. Round 8: unit Finite with checkpoint.autoReset default / earliest / latest and a group that has never stored a checkpoint (with latest every vBucket starts at its current end = the sampled end). Round 9: the re-request after a transient end carries the end bound the session opened the vBucket with (open end / sampled high seqno). Round 10: when the first re-request after a transient end is refused, pending events are acknowledged inside the retry pause (half of the refused cases): the retry starts from the position settled then.",
     "C13": "Later additions: server 5.0.0 (serial close); Couchbase heart-beat membership (incl. Close while a monitor round is in flight); a "
            "server-initiated stream end during Close; pings that start failing shortly before Close (Close inside the retry wait of a failing "
            "health round); after the quiet window no goroutine may execute library code; units StartStop (Start();Stop() back to back at the "
@@ -420,13 +420,13 @@ _MORE = {
            "histories with dcp.listener.skipUntil (dropped events are not 'accepted'); a share of the histories scrapes through the real HTTP API "
            "(child process: GET /metrics parsed from the exposition text instead of Collect(), GET /states/offset compared with the tracked positions). Round 5: transient stream ends and failovers in the histories (active-stream gauge after a re-request). Round 6: non-dynamic membership types with rebalances triggered twice within the (80 ms) delay. Round 8: a scrape between the arrival of new membership information and the reaction of the stream (half of the rebalances): member number, group size and range are those the stream still streams with. Round 9: in a scrape whose sequence-number query failed a VALID lag sample must still equal max(0, high - tracked).",
     "C17": "Later additions: zero-padded numbers in plain and unit spellings. Round 5: every boolean spelling for the metadata secureConnection override, main setting both ways. Round 6: empty-string overrides. Round 7: environment values containing dollar signs.",
-    "C18": "Later additions: a version text the parser itself rejects, a reply without the field, an error document: the client must not start. Round 6: unit SerialClose (interface-level client with asynchronous end notifications: below 5.5.0 the next close is not issued before the previous stream's end reached its observer; from 5.5.0 on closes overlap); the wire unit's node refuses send_stream_end_on_client_close_stream below 5.5.0. Round 7: the serial unit varies dcp mode (finite) and checkpoint type.",
+    "C18": "Later additions: a version text the parser itself rejects, a reply without the field, an error document: the client must not start. Round 6: unit SerialClose (interface-level client with asynchronous end notifications: below 5.5.0 the next close is not issued before the previous stream's end reached its observer; from 5.5.0 on closes overlap); the wire unit's node refuses send_stream_end_on_client_close_stream below 5.5.0. Round 7: the serial unit varies dcp mode (finite) and checkpoint type. Round 10: version strings with zero-padded components (widths 2/4/5), denoting the same decimal numbers.",
     "C19": "Later additions: slow pings (a round longer than five retry waits); failure kinds plain error / deadline exceeded / canceled / "
            "(partial result, error). Round 5: unit ShutdownPaths (real Dcp.Start in a child process stopped by Close / signal / the end of every stream: no ping after Start returned). Round 6: production-like intervals (2.5-5 s): Stop() shortly after a round that recovered, and the round after it. Round 8: unit OverlappingStops (in-process, 14 checkers per case): 1-4 Stop() calls from different goroutines, the first while a ping is in flight with a tick queued behind it; a ping that begins after ANY of them has returned is a violation. Round 9: failure kinds include gocbcore.ErrAuthenticationFailure / ErrBucketNotFound / ErrShutdown / ErrTimeout (wrapped).",
     "C20": "Later additions: unit CheckpointRead (cbMetadata.Load in a child process against silent / erroring nodes and attribute-less documents); "
            "after every wire case with a late or missing reply no closure of the wrappers may be blocked on a gocbcore goroutine. Round 5: unit SeqNosComplete (64..1024 vBuckets, 1-3 nodes, back-to-back GetVBucketSeqNos calls; the result holds every vBucket with the node's value at the moment of return). Round 6: SeqNosComplete with one node answering TMPFAIL 0-150 ms after the others (the call must fail). Round 7: op OpenStreamAfterRollback (first request answered ROLLBACK, the generated behaviour applies to the re-request). Round 9: op MetadataSaveAgain (one metadata object: a save the node refuses, then the generated behaviour on a byte-identical second save).",
     "C03": "Later additions (round 5): unit RebalanceHistory (history engine with oracle C03 and rebalances; 1-3 events delivered on the re-requested streams from inside AfterStreamStart, while the rebalance is still completing).",
-    "C07": "Later additions (round 5): the gate unit feeds every event kind (deletion, expiration, system events, seqno-advanced) and records every kind at the listener. Round 6: the simulated node answers polls that name another vbUUID in OBSERVE_SEQNO's hard-failover form (half of the cases) + directed suffix (the active copy replaced by one on a new branch); unit StartupWakeup (quiet vBucket, checkpoint load slower than the poll interval: the first dispatch must not be lost - F15) and its Fixed replay. Round 7: catch-up positions (stream reopened after a rollback) in the gate unit. Round 8: snapshot type bits (memory / disk / checkpoint / history) on the markers of the gate unit.",
+    "C07": "Later additions (round 5): the gate unit feeds every event kind (deletion, expiration, system events, seqno-advanced) and records every kind at the listener. Round 6: the simulated node answers polls that name another vbUUID in OBSERVE_SEQNO's hard-failover form (half of the cases) + directed suffix (the active copy replaced by one on a new branch); unit StartupWakeup (quiet vBucket, checkpoint load slower than the poll interval: the first dispatch must not be lost - F15) and its Fixed replay. Round 7: catch-up positions (stream reopened after a rollback) in the gate unit. Round 8: snapshot type bits (memory / disk / checkpoint / history) on the markers of the gate unit. Round 10: unit Gate: after k reports the stream is requested again inside the session with the same observer and the answer names the same or another vbUUID (SetVbUUID): the threshold does not go down, what it covers is delivered.",
     "C09": "Later additions (round 5): unit StreamFollowsMembership (real stream + real discovery object; 2-5 membership events placed idle / while closing / while the reopen is pending / at the start of / inside the reopen through lifecycle callbacks; the live stream set ends up as the partition of the last info). Round 6: events placed while the AfterRebalanceEnd callback of the previous rebalance runs; leader groups report a gap whatever the numbering check says. Round 7: a quarter of the follow cases on the file backend with a file listing every vBucket. Round 8: unit FollowerTakesAssignments (real RPC server and Handler.Rebalance on the follower; its leader handle is assigned / lost between pushes). Round 9: unit StaticConfigSources (member number / group size through ApplyDefaults from the configuration struct and / or the environment overrides, absent or stale file values under an override).",
 }
 for _k, _v in _MORE.items():
